@@ -96,6 +96,7 @@ func cmdCheck(args []string) {
 	repo := fs.String("repo", "/repo", "repository root")
 	verif := fs.String("verif", "/verif", "verif root")
 	replay := fs.String("replay", "", "re-run the reproduction described by a replay file")
+	out := fs.String("out", "", "directory for evidence/ and replays/ (default: the verif root)")
 	jobs := fs.Int("j", 16, "parallel solver jobs")
 	fs.Parse(args[1:])
 	if t := os.Getenv("VERIF_TIER"); t != "" && !flagSet(fs, "tier") {
@@ -107,6 +108,10 @@ func cmdCheck(args []string) {
 	}
 	if *replay != "" {
 		os.Exit(runReplay(*replay, *repo, *verif))
+	}
+	outDir = *out
+	if outDir == "" {
+		outDir = *verif
 	}
 	os.Exit(runCheck(id, *tier, *repo, *verif, seed, *jobs))
 }
@@ -220,7 +225,10 @@ func runCheck(id, tier, repo, verif string, seed, jobs int) int {
 	bres := runBounded(id, tier, repo, verif, seed)
 	violations := 0
 	known := 0
-	replayDir := filepath.Join(verif, "replays", id)
+	if outDir == "" {
+		outDir = verif
+	}
+	replayDir := filepath.Join(outDir, "replays", id)
 	for _, f := range fails {
 		if k := matchFinding(findings, id, f); k != nil {
 			fmt.Printf("KNOWN-FINDING: property=%s %s [%s %s] %s\n", id, k.ID, shortName(f.Fn), baseName(f.Ob), k.What)
@@ -342,9 +350,9 @@ func runCheck(id, tier, repo, verif string, seed, jobs int) int {
 		"property_id": id, "tier": tier, "seed": seed, "level": level, "coverage": cov,
 		"assumptions": trusted, "wall_s": round3(time.Since(t0).Seconds()), "violations": violations,
 	}
-	os.MkdirAll(filepath.Join(verif, "evidence"), 0o755)
+	os.MkdirAll(filepath.Join(outDir, "evidence"), 0o755)
 	b, _ := json.MarshalIndent(ev, "", " ")
-	if err := os.WriteFile(filepath.Join(verif, "evidence", id+".json"), b, 0o644); err != nil {
+	if err := os.WriteFile(filepath.Join(outDir, "evidence", id+".json"), b, 0o644); err != nil {
 		fmt.Println("cannot write evidence:", err)
 		return 2
 	}
@@ -368,6 +376,7 @@ func firstNonEmpty(a ...string) string {
 func round3(f float64) float64 { return float64(int(f*1000+0.5)) / 1000 }
 
 var solverSeed int
+var outDir string
 
 // ---------------------------------------------------------------------------
 // witness search / replay on the real code
